@@ -55,6 +55,16 @@ type s3obs struct {
 	Errors  []string `json:"errors,omitempty"`
 	Panic   string   `json:"panic,omitempty"`
 	HasBody bool     `json:"-"`
+	CType   string   `json:"content_type,omitempty"`
+	MetaW   string   `json:"meta_w,omitempty"`
+}
+
+// Every put carries two metadata entries derived from the body, so that the
+// metadata a read must return follows from the model's body (a copy carries the
+// source's metadata along).
+func c02Meta(body []byte) (ctype, w string) {
+	h := drv.MD5Hex(body)
+	return "text/x-" + h[:8], "w-" + h[8:20]
 }
 
 func deleteXML(keys []string, quiet bool) []byte {
@@ -84,7 +94,8 @@ func execHTTP(s *drv.Server, o s3op) s3obs {
 	case "list-buckets":
 		q = &drv.Req{Method: "GET", Path: "/"}
 	case "put":
-		q = &drv.Req{Method: "PUT", Path: drv.ObjPath(o.B, o.K), Body: []byte(o.Body)}
+		ct, mw := c02Meta([]byte(o.Body))
+		q = &drv.Req{Method: "PUT", Path: drv.ObjPath(o.B, o.K), Body: []byte(o.Body), Header: drv.H("Content-Type", ct, "x-amz-meta-w", mw)}
 	case "get":
 		q = &drv.Req{Method: "GET", Path: drv.ObjPath(o.B, o.K)}
 	case "head":
@@ -100,7 +111,8 @@ func execHTTP(s *drv.Server, o s3op) s3obs {
 	}
 	resp := s.Do(q)
 	ob := s3obs{Status: resp.Status, Code: resp.ErrCode(), Body: resp.Body, BodyLen: len(resp.Body), ETag: resp.Header.Get("ETag"),
-		CLen: resp.Header.Get("Content-Length"), HasBody: q.Method != "HEAD"}
+		CLen: resp.Header.Get("Content-Length"), HasBody: q.Method != "HEAD",
+		CType: resp.Header.Get("Content-Type"), MetaW: resp.Header.Get("X-Amz-Meta-W")}
 	if resp.Panic != nil {
 		ob.Panic = fmt.Sprint(resp.Panic) + "\n" + clip(resp.Stack, 1500)
 		return ob
@@ -176,7 +188,8 @@ func execGo(s *drv.Server, o s3op) (ob s3obs) {
 		ob.Names = sortedCopy(ob.Names)
 		return ob
 	case "put":
-		_, err := b.PutObject(o.B, o.K, map[string]string{}, strings.NewReader(o.Body), int64(len(o.Body)))
+		ct, mw := c02Meta([]byte(o.Body))
+		_, err := b.PutObject(o.B, o.K, map[string]string{"Content-Type": ct, "X-Amz-Meta-W": mw}, strings.NewReader(o.Body), int64(len(o.Body)))
 		ob = errToObs(err, 200)
 		if err == nil {
 			ob.ETag = drv.QuotedMD5([]byte(o.Body)) // the Go API returns no ETag for a put
@@ -194,7 +207,8 @@ func execGo(s *drv.Server, o s3op) (ob s3obs) {
 			return errToObs(err, 200)
 		}
 		defer obj.Contents.Close()
-		ob = s3obs{Status: 200, ETag: `"` + fmt.Sprintf("%x", obj.Hash) + `"`, CLen: fmt.Sprint(obj.Size)}
+		ob = s3obs{Status: 200, ETag: `"` + fmt.Sprintf("%x", obj.Hash) + `"`, CLen: fmt.Sprint(obj.Size),
+			CType: obj.Metadata["Content-Type"], MetaW: obj.Metadata["X-Amz-Meta-W"]}
 		if o.Kind == "get" {
 			body, rerr := io.ReadAll(obj.Contents)
 			if rerr != nil {
@@ -220,7 +234,14 @@ func execGo(s *drv.Server, o s3op) (ob s3obs) {
 		}
 		return ob
 	case "copy":
-		res, err := b.CopyObject(o.SB, o.SK, o.B, o.K, map[string]string{})
+		// the caller of the Go API supplies the metadata; do what the HTTP handler does: carry the source's over
+		meta := map[string]string{}
+		if src, herr := b.HeadObject(o.SB, o.SK); herr == nil && src != nil {
+			for k, v := range src.Metadata {
+				meta[k] = v
+			}
+		}
+		res, err := b.CopyObject(o.SB, o.SK, o.B, o.K, meta)
 		ob = errToObs(err, 200)
 		if err == nil {
 			ob.ETag = res.ETag
@@ -296,6 +317,9 @@ func compareOutcome(o s3op, want model.Outcome, got s3obs, goAPI bool) (string, 
 		}
 		if o.Kind == "head" && len(got.Body) != 0 {
 			return "head-with-body", "HEAD returned a body"
+		}
+		if ct, mw := c02Meta(want.Obj.Body); got.CType != ct || got.MetaW != mw {
+			return "metadata-mismatch", fmt.Sprintf("Content-Type %q x-amz-meta-w %q, the most recent write of this object carried %q and %q", got.CType, got.MetaW, ct, mw)
 		}
 	case "copy", "put":
 		if got.ETag != `"`+want.Obj.MD5+`"` {
@@ -459,7 +483,7 @@ func opAlphabet(buckets, keys []string, single bool) []s3op {
 func runC02(c *Ctx) {
 	r := c.R
 	exhLen := r.Pick(3, 4)
-	r.SetRule(fmt.Sprintf("bounded-exhaustive: every sequence of length %d over a reduced alphabet (1 bucket, keys k and d/x: create/head/delete bucket, put x2 bodies, get, head, delete, copy incl. self-copy, multi-delete, list-buckets), each step followed by an audit read of every key; random: sequences of 30-60 ops over 2 buckets x keys {k, d/x, d/y, d/e/z} incl. cross-bucket copy and a third never-created bucket; each on mem, bolt, fs-mm, fs-dir, single-mm, single-dir, with and without auto-bucket, via HTTP and via the Go Backend API; distinct = (configuration, op-kind sequence, outcome-class sequence) containing a mutation followed by a dependent read", exhLen))
+	r.SetRule(fmt.Sprintf("bounded-exhaustive: every sequence of length %d over a reduced alphabet (1 bucket, keys k and d/x: create/head/delete bucket, put x2 bodies, get, head, delete, copy incl. self-copy, multi-delete, list-buckets), every put carrying body-derived Content-Type and x-amz-meta-w that reads must return, each step followed by an audit read of every key; random: sequences of 30-60 ops over 2 buckets x keys {k, d/x, d/y, d/e/z} incl. cross-bucket copy, a third never-created bucket and never-written ghost keys (below an object, the name of a directory above objects, an extension of a key) as targets of reads, deletes and copy sources; each on mem, bolt, fs-mm, fs-dir, single-mm, single-dir, with and without auto-bucket, via HTTP and via the Go Backend API; distinct = (configuration, op-kind sequence, outcome-class sequence) containing a mutation followed by a dependent read", exhLen))
 	r.Exhaustive(true)
 	var cfgs []c02Config
 	for _, k := range drv.AllKinds {
@@ -543,6 +567,7 @@ func runC02(c *Ctx) {
 				bk = []string{drv.SingleName, "other-bucket"}
 			}
 			keys := []string{"k", "d/x", "d/y", "d/e/z"}
+			ghosts := []string{"k/below", "d/x/below/deeper", "d", "d/e", "kk", "d/xx", "d/e/z/z"}
 			n := 30 + rng.Intn(31)
 			var ops []s3op
 			if !single && !cfg.auto {
@@ -554,6 +579,12 @@ func runC02(c *Ctx) {
 					b = bk[len(bk)-1]
 				}
 				k := keys[rng.Intn(len(keys))]
+				// ghost keys are never written: names below an object, names of the "directories"
+				// above objects, extensions of a key. Reads, deletes and copy sources may name them.
+				rk := k
+				if rng.Intn(5) == 0 {
+					rk = ghosts[rng.Intn(len(ghosts))]
+				}
 				switch x := rng.Intn(100); {
 				case x < 5 && !single:
 					ops = append(ops, s3op{Kind: "create-bucket", B: b})
@@ -567,11 +598,11 @@ func runC02(c *Ctx) {
 					body := gen.Body(rng, rng.Intn(40), gen.PatRandom, uint32(idx*1000+len(ops)))
 					ops = append(ops, s3op{Kind: "put", B: b, K: k, Body: string(body)})
 				case x < 55:
-					ops = append(ops, s3op{Kind: "get", B: b, K: k})
+					ops = append(ops, s3op{Kind: "get", B: b, K: rk})
 				case x < 62:
-					ops = append(ops, s3op{Kind: "head", B: b, K: k})
+					ops = append(ops, s3op{Kind: "head", B: b, K: rk})
 				case x < 75:
-					ops = append(ops, s3op{Kind: "delete", B: b, K: k})
+					ops = append(ops, s3op{Kind: "delete", B: b, K: rk})
 				case x < 82:
 					var ks []string
 					for _, kk := range keys {
@@ -582,11 +613,16 @@ func runC02(c *Ctx) {
 					if len(ks) == 0 {
 						ks = []string{k}
 					}
+					if rk != k {
+						ks = append(ks, rk)
+					}
 					ops = append(ops, s3op{Kind: "multi-delete", B: b, Keys: ks})
 				default:
 					sb, sk := bk[rng.Intn(2)], keys[rng.Intn(len(keys))]
 					if rng.Intn(6) == 0 {
 						sb, sk = b, k // self-copy
+					} else if rk != k {
+						sk = rk
 					}
 					ops = append(ops, s3op{Kind: "copy", SB: sb, SK: sk, B: b, K: k})
 				}
